@@ -8,6 +8,9 @@
  *   X <fn> <mode> <inlen> <outlen> <cursor> <presence> | <input words> | <typeform bytes> | <spacing text>
  *       fn: T lou_translate        S lou_translateString      R _lou_translate (rule trace)
  *           B lou_backTranslate    U lou_backTranslateString  P lou_translatePrehyphenated (no hyphen arrays)
+ *           Q lou_translatePrehyphenated with hyphen arrays of exactly inlen / outlen bytes; the input marks are
+ *             '1' where (k * 5 + mode) % 3 == 0 and '0' elsewhere; the output marks are printed in the rules
+ *             field as k:byte (pre-filled with '~')
  *           C lou_charToDots       D lou_dotsToChar
  *       cursor: -2 = pass NULL (also when presence bit 16 is off); otherwise the value
  *       presence bits: 1 typeform, 2 spacing, 4 outputPos, 8 inputPos, 16 cursorPos
@@ -206,6 +209,7 @@ main(void) {
 			memset(rules, 0, sizeof rules);
 			int hung = 0;
 			int o0 = opens_total;
+			char *ihy = NULL, *ohy = NULL;
 			sec_in = next_bar(p);
 			sec_tf = next_bar(sec_in);
 			sec_sp = next_bar(sec_tf);
@@ -281,6 +285,14 @@ main(void) {
 					ret = lou_translatePrehyphenated(tl, in, &il, out, &ol, typeform, spacing, outputPos, inputPos, curp,
 							NULL, NULL, mode);
 					break;
+				case 'Q':
+					ihy = h_exact(inlen > 0 ? inlen : 0);
+					ohy = h_exact(outlen > 0 ? outlen : 0);
+					for (k = 0; k < inlen; k++) ihy[k] = ((k * 5 + mode) % 3 == 0) ? '1' : '0';
+					for (k = 0; k < outlen; k++) ohy[k] = '~';
+					ret = lou_translatePrehyphenated(tl, in, &il, out, &ol, typeform, spacing, outputPos, inputPos, curp,
+							ihy, ohy, mode);
+					break;
 				case 'B':
 					ret = lou_backTranslate(tl, in, &il, out, &ol, typeform, spacing, outputPos, inputPos, curp, mode);
 					break;
@@ -332,6 +344,8 @@ main(void) {
 			if (fn == 'R' && !hung && ret == 1)
 				for (k = 0; k < rulesLen && k < 512; k++)
 					printf(" %d:%d", rules[k] ? (int)rules[k]->opcode : -1, rules[k] ? rules[k]->index : -1);
+			if (fn == 'Q' && ohy && !hung)
+				for (k = 0; k < outlen; k++) printf(" %d:%d", k, (unsigned char)ohy[k]);
 			printf(" |");
 			for (k = 0; k < LOU_VERIF_SITES; k++)
 				if (_lou_verif_ticks[k]) printf(" %d:%lu", k, _lou_verif_ticks[k]);
@@ -350,6 +364,10 @@ main(void) {
 			free(outputPos);
 			free(typeform);
 			free(spacing);
+			if (!hung) {
+				free(ihy);
+				free(ohy);
+			}
 			if (hung) lou_free();
 		}
 	}
